@@ -2,7 +2,8 @@
 
 Real code driven: `Reader.__call__` (a concrete subclass, `layout.Entry`, both `layout.Dense` and `layout.Frame`),
 `Reader._match_entry` directly for name arrangements that `dsl.Schema` itself refuses (duplicates),
-`Dense/Frame.to_rows/to_columns/take_rows/take_columns`, `extract.Slicer` (via `from_columns`), `extract.RowDriver`.
+`Dense/Frame.to_rows/to_columns/take_rows/take_columns`, `extract.Slicer` (via `from_columns`), `extract.RowDriver`,
+`extract.TableDriver`, and the serving path `layout.get_decoder(...).loads(request) -> Entry -> Reader`.
 Model: lean/ForML/Model/Entry.lean through drv_c15.
 """
 from __future__ import annotations
@@ -54,6 +55,20 @@ class CastFailed(Exception):
     pass
 
 
+def materialise(case):
+    """The entry payload as Python values: cases stay JSON-able, so columns whose *entry* kind is date / timestamp are
+    written as ISO strings in the case and turned into `datetime.date` / `datetime.datetime` objects here."""
+    out = []
+    for (_, kind), col in zip(case['e'], case['data']):
+        if kind == 'date':
+            out.append([datetime.date.fromisoformat(v) for v in col])
+        elif kind == 'timestamp':
+            out.append([datetime.datetime.fromisoformat(v) for v in col])
+        else:
+            out.append(list(col))
+    return out + [list(c) for c in case['data'][len(case['e']):]]
+
+
 def model_cast(kind: str, v):
     """Python half of the model: interpretation of the uninterpreted `cast k v` of Entry.lean, mirroring
     `Primitive.cast` (instance short-cut, then the constructor). Written here, forml is not called."""
@@ -102,12 +117,15 @@ def _number(s):
 
 
 def spec_castable(kind: str, s) -> bool:
+    """Does the source cell denote a value of the declared kind?"""
     if kind in ('integer', 'float'):
         n = _number(s)
         return n is not None and (kind == 'float' or float(n).is_integer())
     if kind == 'string':
         return True
     if kind in ('date', 'timestamp'):
+        if isinstance(s, datetime.date):  # a date or a timestamp (a timestamp is a date, a date is a timestamp at midnight)
+            return True
         if not isinstance(s, str):
             return False
         try:
@@ -116,6 +134,15 @@ def spec_castable(kind: str, s) -> bool:
         except ValueError:
             return False
     return False
+
+
+def _moment(s):
+    """The date / point in time a source cell denotes (dates as midnight)."""
+    if isinstance(s, datetime.datetime):
+        return s
+    if isinstance(s, datetime.date):
+        return datetime.datetime.combine(s, datetime.time())
+    return datetime.datetime.fromisoformat(s)
 
 
 def spec_conforms(kind: str, s, o) -> bool:
@@ -129,12 +156,22 @@ def spec_conforms(kind: str, s, o) -> bool:
     if kind == 'string':
         if not isinstance(o, str):
             return False
-        return o == s if isinstance(s, str) else _number(o) == s
-    if kind == 'date':
-        return isinstance(o, datetime.date) and not isinstance(o, datetime.datetime) \
-            and o == datetime.datetime.fromisoformat(s).date()
+        if isinstance(s, str):
+            return o == s
+        if isinstance(s, datetime.date):  # some text denoting the same date / moment
+            try:
+                return _moment(o.strip()) == _moment(s)
+            except ValueError:
+                return False
+        return _number(o) == s
+    if kind == 'date':  # forml's kind lattice: a timestamp is a date (Timestamp subclasses Date, datetime subclasses date)
+        if not isinstance(o, datetime.date):
+            return False
+        if isinstance(o, datetime.datetime):
+            return isinstance(s, datetime.datetime) and o == s
+        return o == _moment(s).date()
     if kind == 'timestamp':
-        return isinstance(o, datetime.datetime) and o == datetime.datetime.fromisoformat(s)
+        return isinstance(o, datetime.datetime) and o == _moment(s)
     return False
 
 
@@ -154,22 +191,29 @@ class C15(fw.Check):
     RULE = ('(1) Reader._match_entry on name lists: every entry arrangement over the query names plus one foreign name '
             '(all permutations, supersets, missing, duplicates; exhaustive up to the stated sizes, random for 5 fields); '
             '(2) Reader.__call__ with layout.Entry: query schemas of 1..5 fields x every permutation of the entry columns '
-            '(+ extra / missing / duplicate-name arrangements) x kinds integer/float/string (+ date/timestamp from strings) '
-            'drawn so that casts are needed x random integral data of 1..3 rows x Dense and Frame; '
+            '(+ extra / missing / duplicate-name / malformed arrangements) x kinds integer/float/string/date/timestamp drawn so '
+            'that casts are needed x random data of 0..3 rows x Dense and Frame; every 7th delivered case again through '
+            'RowDriver, every 5th through Slicer.from_columns + TableDriver + Slicer.apply; '
+            '(2b) serving path: request bodies (csv, json records/columns/instances/inputs) -> real decoder -> Entry -> Reader; '
             '(3) Dense/Frame views and take_rows/take_columns for every index list up to the stated length over '
             '[-n-1, n] (repeats, negatives, out of range) on r x c matrices of distinct cells; (4) Slicer via from_columns. '
             'A case is distinct by its full input and non-trivial when the entry is not the identical arrangement / '
-            'the index list is non-empty. Cells are compared with their exact type class (int/float/str/date/ts).')
+            'the index list is non-empty. Compared: refused vs delivered cells with their exact type class '
+            '(int/float/str/date/ts); not the exception class, not Dense-vs-Frame of the result.')
     TRUSTED = [
         'pandas/numpy: DataFrame construction, iloc, ndarray.take, dtype coercion when a mixed-dtype row is materialised '
-        '(cells are read column-wise); functools.lru_cache on _match_entry',
-        'harness/props/c15.py model_cast: the Python interpretation of the model\'s uninterpreted value cast',
+        '(cells are read column-wise; row-wise reads compare values only); functools.lru_cache on _match_entry',
+        'harness/props/c15.py model_cast: the Python interpretation of the model\'s uninterpreted partial value cast, and the '
+        'list of un-castable cells computed with it and sent to the model',
         'dsl.Schema refuses duplicate field names (observed on every run); duplicates reach _match_entry only when it is '
         'called directly',
+        'the request decoders (layout.get_decoder, pandas schema inference) are exercised end to end but not modelled',
     ]
     ASSUMPTIONS = ['query field names are unique (dsl.Schema construction enforces it)',
-                   'payload values are Python int/float/str (integral floats, decimal integer strings, ISO dates)',
-                   'compound kinds (Array/Map/Struct) are not cast-able in forml and are outside the model']
+                   'payload values are Python int/float/str/date/datetime (integral floats, decimal integer strings, ISO dates); '
+                   'Boolean and Decimal kinds are not generated',
+                   'compound kinds (Array/Map/Struct) are not cast-able in forml and are outside the model',
+                   'serving requests have homogeneous columns (the decoder infers one kind per column from a sample)']
 
     # ---- generated table: the live kind lattice -----------------------------------------------------------
     def gen_tables(self):
@@ -181,10 +225,11 @@ class C15(fw.Check):
         live = sorted(k.__name__ for k in kindmod.Primitive.__subkinds__)
         lines = ['/- GENERATED by harness/props/c15.py from the live classes of forml/io/dsl/_struct/kind.py — do not edit. -/',
                  'import ForML.Model.Entry', 'namespace ForML.Generated.C15Kinds', 'open ForML.Entry', '',
-                 '/-- names of the non-abstract primitive kinds found in the imported module (sorted) -/',
+                 '/-- names of the non-abstract primitive kinds found in the imported module (sorted; informational) -/',
                  'def primitiveKinds : List String := [' + ', '.join(f'"{n}"' for n in live) + ']', '',
-                 '/-- `X().match(Y())` evaluated on the live singletons -/',
+                 '/-- `X().match(Y())` evaluated on the live singletons (kinds the model does not know are left out) -/',
                  'def liveMatch : Kind → Kind → Bool']
+        pairs = []
         for a in KIND_NAMES:
             for b in KIND_NAMES:
                 ka, kb = getattr(kindmod, KIND_CLASS[a], None), getattr(kindmod, KIND_CLASS[b], None)
@@ -192,7 +237,12 @@ class C15(fw.Check):
                     continue
                 if bool(ka().match(kb())):
                     lines.append(f'  | .{a}, .{b} => true')
+                    pairs.append((a, b))
         lines += ['  | _, _ => false', '', 'end ForML.Generated.C15Kinds', '']
+        snapshot = {(k, k) for k in KIND_NAMES} | {('date', 'timestamp')}
+        if set(pairs) != snapshot or live != sorted(KIND_CLASS.values()):
+            self.notes.append(f'the live kind lattice differs from the snapshot in Model/Entry.lean (kmatch): match pairs '
+                              f'{sorted(set(pairs) ^ snapshot)}, primitive kinds {live}; the model runs with the live relation')
         return {'ForML/Generated/C15Kinds.lean': '\n'.join(lines)}
 
     # ---- real-code adapters -----------------------------------------------------------------------------
@@ -262,7 +312,7 @@ class C15(fw.Check):
             statement = table.select(*(getattr(table, f'f{n}') for n, _ in case['q']))
         else:
             statement = dsl.Table(dsl.Schema.from_fields(*self._fields(case['q'])))
-        entry = layout.Entry(eschema, self._tabular(case['impl'], case['data'], [f'f{n}' for n, _ in case['e']]))
+        entry = layout.Entry(eschema, self._tabular(case['impl'], materialise(case), [f'f{n}' for n, _ in case['e']]))
         try:
             if via_driver:
                 rows = extract.RowDriver(self.reader(), extract.Statement.prepare(statement, None)).apply(entry)
@@ -274,11 +324,31 @@ class C15(fw.Check):
         tag = 'dense' if isinstance(out, layout.Dense) else 'frame' if isinstance(out, layout.Frame) else type(out).__name__
         return ['data', tag, read_columns(out)]
 
+    def run_sliced(self, case, nf, scalar):
+        """The train-mode source path: `Slicer.from_columns(features, labels)` fixes the statement's columns, the
+        `TableDriver` reads the entry through the real reader, the real `Slicer` splits the result.
+        Returns ['ok', feature rows, label column | label rows] (cell values only) or ['error', cls]."""
+        from forml.io import dsl, layout
+        from forml.io._input import extract
+        table = dsl.Table(dsl.Schema.from_fields(*self._fields(sorted(case['q']))))
+        cols = [getattr(table, f'f{n}') for n, _ in case['q']]
+        columns, builder = extract.Slicer.from_columns(cols[:nf], cols[nf] if scalar else cols[nf:])
+        try:
+            entry = layout.Entry(dsl.Schema.from_fields(*self._fields(case['e'])),
+                                 self._tabular(case['impl'], materialise(case), [f'f{n}' for n, _ in case['e']]))
+            data = extract.TableDriver(self.reader(), extract.Statement.prepare(table.select(*columns), None)).apply(entry)
+            feats, labels = builder().apply(data)
+            feats = [[v[1] for v in r] for r in read_rows(feats)]
+            labels = [canon(v)[1] for v in labels] if scalar else [[v[1] for v in r] for r in read_rows(labels)]
+            return ['ok', feats, labels]
+        except Exception as err:  # pylint: disable=broad-except
+            return ['error', type(err).__name__]
+
     # ---- oracle for the reader, from the property text ---------------------------------------------------------
     @staticmethod
     def oracle_reader(case, res):
         """[(what, signature-class)] — empty when the property holds on this case."""
-        q, e, data = case['q'], case['e'], case['data']
+        q, e, data = case['q'], case['e'], materialise(case)
         enames = [n for n, _ in e]
         if res[0] == 'schema-error':
             return []  # the entry never came into being: refused
@@ -314,11 +384,12 @@ class C15(fw.Check):
                     break
         return out
 
-    def _reader_outcome(self, case):
-        """Run the real code once, keep the raw delivered cells for the oracle."""
+    def _reader_outcome(self, case, entry=None):
+        """Run the real code once, keep the raw delivered cells for the oracle. `entry`: a ready-made `layout.Entry`
+        (the serving path hands in what the real decoder produced) instead of one built from the case."""
         from forml.io import dsl, layout
         try:
-            eschema = dsl.Schema.from_fields(*self._fields(case['e']))
+            eschema = entry.schema if entry is not None else dsl.Schema.from_fields(*self._fields(case['e']))
         except Exception as err:  # pylint: disable=broad-except
             return ['schema-error', type(err).__name__]
         if case.get('query'):
@@ -327,7 +398,8 @@ class C15(fw.Check):
             statement = table.select(*(getattr(table, f'f{n}') for n, _ in case['q']))
         else:
             statement = dsl.Table(dsl.Schema.from_fields(*self._fields(case['q'])))
-        entry = layout.Entry(eschema, self._tabular(case['impl'], case['data'], [f'f{n}' for n, _ in case['e']]))
+        if entry is None:
+            entry = layout.Entry(eschema, self._tabular(case['impl'], materialise(case), [f'f{n}' for n, _ in case['e']]))
         try:
             out = self.reader()(statement, entry)
             cols = out.to_columns()
@@ -338,19 +410,38 @@ class C15(fw.Check):
         tag = 'dense' if isinstance(out, layout.Dense) else 'frame' if isinstance(out, layout.Frame) else type(out).__name__
         return ['data', tag, [[canon(v) for v in c] for c in raw]]
 
+    @staticmethod
+    def _bad_cells(case):
+        """The cells on which the model's (uninterpreted, partial) value cast is undefined: `[kind, row, col]` for every
+        entry cell that `model_cast` cannot turn into the kind the query declares for a column of that name."""
+        qkind = {n: k for n, k in case['q']}
+        bad = []
+        for col, (n, _) in enumerate(case['e']):
+            k = qkind.get(n)
+            if k is None or col >= len(case['data']):
+                continue
+            for r, v in enumerate(materialise(case)[col]):
+                try:
+                    model_cast(k, v)
+                except CastFailed:
+                    bad.append([k, r, col])
+        return bad
+
     def _model_reader(self, cases, variant='fixed'):
         lines = [sexp.dumps(['reader', variant, c['impl'], len(c['data'][0]) if c['data'] else 0,
-                             [[n, k] for n, k in c['q']], [[n, k] for n, k in c['e']]]) for c in cases]
+                             [[n, k] for n, k in c['q']], [[n, k] for n, k in c['e']], self._bad_cells(c)]) for c in cases]
         out = []
         for c, ans in zip(cases, self.model(lines)):
             m = sexp.loads(ans)
             if m == 'missing':
                 out.append(['error', 'MissingError'])
+            elif m == 'cast-error':
+                out.append(['error', 'CastError'])
             elif isinstance(m, list) and m and m[0] == 'data':
                 try:
-                    out.append(['data', m[1], [[canon(eval_term(t, c['data'])) for t in col] for col in m[2]]])
-                except CastFailed:
-                    out.append(['error', 'CastError'])
+                    out.append(['data', m[1], [[canon(eval_term(t, materialise(c))) for t in col] for col in m[2]]])
+                except CastFailed as err:
+                    raise fw.MachineryError(f'the model delivered a term whose cast fails: {m} on {c}') from err
             else:
                 out.append(['model', m])
         return out
@@ -362,7 +453,7 @@ class C15(fw.Check):
         out = []
         for what, cls in problems:
             sig = cls
-            if cls == 'wrong-cell' and legacy_model is not None and res == legacy_model:
+            if cls == 'wrong-cell' and legacy_model is not None and self.behaviour(res) == self.behaviour(legacy_model):
                 sig = SIG_D16
             out.append((what, sig))
         return res, out
@@ -371,18 +462,36 @@ class C15(fw.Check):
     def _public(case):
         return {k: v for k, v in case.items() if not k.startswith('_')}
 
+    @staticmethod
+    def behaviour(res):
+        """What the property talks about: the entry was refused (whatever the exception class) or data was delivered
+        (the cells, column by column; *not* whether the payload came back as a Dense or a Frame)."""
+        if res[0] == 'error':
+            return ['refused']
+        if res[0] == 'data':
+            return ['data', res[2]]
+        return res
+
     # ---- generators -------------------------------------------------------------------------------------------------
     def _column(self, kind: str, nrows: int, target: str = None, malformed=False):
         rng = self.rng
+
+        def day():
+            return f'20{rng.randint(10, 29)}-{rng.randint(1, 12):02d}-{rng.randint(1, 28):02d}'
+
         if kind == 'integer':
             return [rng.randint(-99, 999) for _ in range(nrows)]
         if kind == 'float':
             return [float(rng.randint(-99, 999)) for _ in range(nrows)]
+        if kind == 'date':  # ISO text in the case, `datetime.date` objects in the payload (see `materialise`)
+            return [day() for _ in range(nrows)]
+        if kind == 'timestamp':
+            return [f'{day()}T{rng.randint(0, 23):02d}:{rng.randint(0, 59):02d}:{rng.randint(0, 59):02d}' for _ in range(nrows)]
         if kind == 'string':
             if target in ('date', 'timestamp'):
-                return [f'20{rng.randint(10, 29)}-{rng.randint(1, 12):02d}-{rng.randint(1, 28):02d}' for _ in range(nrows)]
+                return [day() for _ in range(nrows)]
             col = [str(rng.randint(-99, 999)) for _ in range(nrows)]
-            if malformed:
+            if malformed and nrows:
                 col[rng.randrange(nrows)] = 'x' + col[0]
             return col
         raise fw.MachineryError(kind)
@@ -390,7 +499,7 @@ class C15(fw.Check):
     def _reader_case(self, qnames, arrangement, impl, nrows=None, force_cast=None, malformed=False, query=False):
         """Entry arrangement over the query names: a list of names (may repeat / lack / add)."""
         rng = self.rng
-        nrows = nrows or rng.randint(1, 3)
+        nrows = nrows if nrows is not None else rng.choice([0, 1, 1, 2, 2, 3, 3, 3])
         q = []
         for n in qnames:
             q.append((n, rng.choice(['integer', 'float', 'string', 'integer', 'string', 'date', 'timestamp']
@@ -399,10 +508,16 @@ class C15(fw.Check):
         e, data = [], []
         for n in arrangement:
             target = qkind.get(n)
-            if target in ('date', 'timestamp'):
-                k = 'string'
+            if target in ('date', 'timestamp'):  # from ISO text, or between the two temporal kinds (date ⊇ timestamp)
+                k = rng.choice(['string', 'string', 'date', 'timestamp'])
             elif target is not None and not (force_cast if force_cast is not None else rng.random() < 0.6):
                 k = target
+            elif target == 'string' and rng.random() < 0.15:
+                k = rng.choice(['date', 'timestamp'])
+            elif target is None and rng.random() < 0.1:
+                k = rng.choice(['date', 'timestamp'])
+            elif malformed and target in ('integer', 'float') and rng.random() < 0.2:
+                k = rng.choice(['date', 'timestamp'])  # a temporal value is no number: refused
             else:
                 k = rng.choice(['integer', 'float', 'string'])
             e.append((n, k))
@@ -431,11 +546,25 @@ class C15(fw.Check):
              'data': [['2021-03-04'], ['2020-01-02']]},
             {'q': [[0, 'integer'], [1, 'integer']], 'e': [[0, 'integer'], [0, 'integer'], [1, 'integer']],
              'data': [[1], [2], [3]]},
+            # the temporal kinds: timestamp entry for a date query (no cast: a timestamp is a date), date entry for a
+            # timestamp query (cast to midnight), both to text, and a date where a number is declared (refused)
+            {'q': [[0, 'date'], [1, 'timestamp']], 'e': [[1, 'date'], [0, 'timestamp']],
+             'data': [['2021-03-04'], ['2020-01-02T03:04:05']]},
+            {'q': [[0, 'string'], [1, 'string']], 'e': [[1, 'date'], [0, 'timestamp']],
+             'data': [['2021-03-04'], ['2020-01-02T03:04:05']]},
+            {'q': [[0, 'integer'], [1, 'string']], 'e': [[1, 'string'], [0, 'date']], 'data': [['a'], ['2021-03-04']]},
+            # payloads without rows keep the query's columns (identical, re-ordered + cast, superset)
+            {'q': [[0, 'integer'], [1, 'string']], 'e': [[0, 'integer'], [1, 'string']], 'data': [[], []]},
+            {'q': [[0, 'string'], [1, 'integer']], 'e': [[1, 'string'], [0, 'integer']], 'data': [[], []]},
+            {'q': [[0, 'float']], 'e': [[2, 'float'], [0, 'integer'], [1, 'string']], 'data': [[], [], []]},
+            # a value that cannot be cast: refused (identical and re-ordered arrangement)
+            {'q': [[0, 'integer']], 'e': [[0, 'string']], 'data': [['4', 'x5']]},
+            {'q': [[0, 'integer'], [1, 'string']], 'e': [[1, 'integer'], [0, 'string']], 'data': [[1, 2], ['4', 'x5']]},
         ]
         for c in corpus:
             for impl in ('dense', 'frame'):
                 cases.append(dict(c, kind='reader', impl=impl, query=False))
-        draws = self.n(2, 12)
+        draws = self.n(5, 12)
         for k in range(1, 6):
             names = list(range(k))
             for perm in itertools.permutations(names):
@@ -444,7 +573,7 @@ class C15(fw.Check):
                     arr = [qn[i] for i in perm]
                     for impl in ('dense', 'frame'):
                         cases.append(self._reader_case(qn, arr, impl, query=rng.random() < 0.3))
-        for _ in range(self.n(250, 3000)):
+        for _ in range(self.n(1200, 6000)):
             k = rng.randint(1, 5)
             qn = rng.sample(range(6), k)
             others = [n for n in range(7) if n not in qn]
@@ -471,18 +600,30 @@ class C15(fw.Check):
     # ---- (1) _match_entry ---------------------------------------------------------------------------------
     @staticmethod
     def oracle_match(q, e, res):
-        if res[0] == 'error':
-            return f'_match_entry raised {res[1]}'
         complete = all(n in e for n in q)
+        if res[0] == 'error':  # an exception is a refusal too (the caller never gets data)
+            return f'_match_entry raised {res[1]} although all query names are present' if complete else None
         if (res[0] == 'true') != complete:
             return f'complete={res[0]} but the query names are {"" if complete else "not "}all present'
         if complete:
-            if res[1] == 'none':
-                if list(e) != list(q):
-                    return 'no index list although the entry is not the identical arrangement'
-            elif [e[i] if 0 <= i < len(e) else None for i in res[1]] != list(q):
-                return f'indices {res[1]} do not pick the query names in order'
+            # `None` (identical) means "take the entry as it is", i.e. the identity positions; whether the reader then
+            # really delivers just the query's columns is judged where the property lives (oracle_reader)
+            idx = list(range(len(q))) if res[1] == 'none' else list(res[1])
+            if [e[i] if 0 <= i < len(e) else None for i in idx] != list(q):
+                return f'positions {idx} do not pick the query names in order'
         return None
+
+    @staticmethod
+    def match_behaviour(q, e, r):
+        """Canonical form of a `_match_entry` answer: `None` (identical) is the identity index list; where the entry
+        repeats a name the property only speaks of *a* column of that name, so the names picked are compared
+        (which of the equally named columns — the last, as coded — is reported in the evidence notes, not diffed)."""
+        if r[0] != 'true':
+            return ['refused']  # `(False, None)` as coded, or an exception
+        idx = list(range(len(q))) if r[1] == 'none' else list(r[1])
+        if len(set(e)) < len(e):
+            return ['true', 'names', [e[i] if 0 <= i < len(e) else ['out-of-range', i] for i in idx]]
+        return ['true', idx]
 
     def _match(self):
         rng = self.rng
@@ -512,8 +653,12 @@ class C15(fw.Check):
             shape = ('identical' if e == q else 'permutation' if sorted(e) == sorted(q) and not dup else
                      'duplicate-names' if dup else 'superset' if set(q) < set(e) else 'missing')
             self.case(('match', tuple(q), tuple(e)), f'match k={len(q)} {shape}', nontrivial=e != q,
-                      sample={'match': {'q': q, 'e': e, 'impl': impl}} if shape == 'permutation' and len(q) > 2 else None)
-            if impl != m:
+                      sample={'match': {'q': q, 'e': e, 'impl': impl}} if shape == 'permutation' and len(q) > 2 and len(self.samples) < 2 else None)
+            if dup and impl[0] == 'true':
+                self.extra.setdefault('duplicate_names', {'cases': 0, 'last_occurrence_taken': 0})
+                self.extra['duplicate_names']['cases'] += 1
+                self.extra['duplicate_names']['last_occurrence_taken'] += int(impl == m)
+            if self.match_behaviour(q, e, impl) != self.match_behaviour(q, e, m):
                 self.diverge('_match_entry result', {'kind': 'match', 'q': q, 'e': e}, impl, m)
             bad = self.oracle_match(q, e, impl)
             if bad:
@@ -536,13 +681,13 @@ class C15(fw.Check):
             if account:
                 self.case(('reader', repr(self._public(c))), f'reader k={len(qnames)} {shape} {c["impl"]}'
                           + (' cast' if needs_cast else ''), nontrivial=shape != 'identical' or needs_cast,
-                          sample={'reader': self._public(c), 'delivered': res} if shape == 'permutation' and needs_cast else None)
+                          sample={'reader': self._public(c), 'delivered': res} if shape == 'permutation' and needs_cast and len(self.samples) < 5 else None)
                 self.extra.setdefault('reader_outcomes', {})
                 key = res[0] + (':' + res[1] if res[0] != 'data' else '')
                 self.extra['reader_outcomes'][key] = self.extra['reader_outcomes'].get(key, 0) + 1
             if res[0] == 'schema-error':
                 continue  # the model has no notion of an entry schema that cannot be built
-            if res != mf:
+            if self.behaviour(res) != self.behaviour(mf):
                 self.diverge('Reader.__call__(statement, entry)', self._public(c), res, mf)
             for what, sig in problems:
                 if sig in self._shrunk:  # the verdict keeps one witness per signature: shrink only the first
@@ -552,12 +697,25 @@ class C15(fw.Check):
                 w = self._shrink_reader(c, sig)
                 self.violate(what if w is c else self._describe(w, sig) or what, self._public(w), sig)
             # the same entry through the row driver (values only: a mixed-dtype pandas row is up-cast)
-            if account and res[0] == 'data' and i % 7 == 0:
+            if account and res[0] == 'data' and not problems and i % 7 == 0:
                 rows = self.run_reader(c, via_driver=True)
                 want = [list(r) for r in zip(*res[2])] if res[2] and res[2][0] else []
                 if rows[0] != 'rows' or [[v[1] for v in r] for r in rows[1]] != [[v[1] for v in r] for r in want]:
                     self.violate(f'RowDriver rows differ from the reader\'s columns transposed: {rows}',
                                  self._public(c), 'rowdriver-not-transposed')
+
+            # ... and through the train-mode path: statement columns from Slicer.from_columns, TableDriver, Slicer.apply
+            if account and res[0] == 'data' and not problems and i % 5 == 0 and len(c['q']) >= 2 and len(res[2]) == len(c['q']) \
+                    and res[2][0]:
+                nf = self.rng.randint(0, len(c['q']) - 1)
+                scalar = nf == len(c['q']) - 1 and self.rng.random() < 0.7
+                got = self.run_sliced(c, nf, scalar)
+                rows = [[v[1] for v in r] for r in zip(*res[2])]
+                want = ['ok', [r[:nf] for r in rows], [r[nf] for r in rows] if scalar else [r[nf:] for r in rows]]
+                self.case(('sliced', repr(self._public(c)), nf, scalar), f'reader+slicer nf={nf} labels={"scalar" if scalar else len(c["q"]) - nf}')
+                if got != want:
+                    self.violate(f'features/labels after the slicer are not the query\'s first {nf} / remaining columns: {got} != {want}',
+                                 dict(self._public(c), kind='sliced', nf=nf, scalar=scalar), 'reader-slicer-wrong-split')
 
     def _describe(self, case, sig):
         _, problems = self.check_reader_case(case, self._model_reader([case], 'legacy')[0])
@@ -593,6 +751,117 @@ class C15(fw.Check):
                     break
         return cur if fails(cur) else case
 
+    # ---- (2b) the serving path end to end: request payload -> real decoder -> layout.Entry -> Reader ---------------
+    ENCODINGS = ('csv', 'json-records', 'json-columns', 'json-instances', 'json-inputs')
+
+    @staticmethod
+    def encode_payload(fmt, names, cols):
+        """A request body as a client would write it (independent of forml's encoders)."""
+        import json
+        nrows = len(cols[0]) if cols else 0
+        if fmt == 'csv':
+            def cell(v):
+                return json.dumps(v) if isinstance(v, str) else repr(v)
+            lines = [','.join(names)] + [','.join(cell(c[r]) for c in cols) for r in range(nrows)]
+            return 'text/csv', ('\n'.join(lines) + '\n').encode()
+        records = [{n: c[r] for n, c in zip(names, cols)} for r in range(nrows)]
+        columns = {n: list(c) for n, c in zip(names, cols)}
+        body = {'json-records': records, 'json-columns': columns, 'json-instances': {'instances': records},
+                'json-inputs': {'inputs': columns}}[fmt]
+        return 'application/json', json.dumps(body).encode()
+
+    @staticmethod
+    def _pyvalue(v):
+        return v.item() if hasattr(v, 'item') else v
+
+    def _serving_case(self):
+        """Query schema + a request carrying its columns in some arrangement. Payload values are chosen so that the
+        decoder's kind inference is unambiguous (ints, integral floats written with a fraction digit, non-numeric or —
+        JSON only — numeric-looking strings) and so that casts are needed (int<->float<->string)."""
+        rng = self.rng
+        k = rng.randint(1, 5)
+        qn = rng.sample(range(6), k)
+        fmt = rng.choice(self.ENCODINGS)
+        others = [n for n in range(7) if n not in qn]
+        arr = list(qn)
+        style = rng.choice(['perm', 'perm', 'extra-perm', 'extra-perm', 'identical', 'missing'])
+        if style == 'extra-perm':
+            for n in rng.sample(others, rng.randint(1, min(2, len(others)))):
+                arr.insert(rng.randint(0, len(arr)), n)
+        if style == 'missing':
+            del arr[rng.randrange(len(arr))]
+            if rng.random() < 0.5 or not arr:
+                arr.insert(rng.randint(0, len(arr)), others[0])
+        if style != 'identical':
+            rng.shuffle(arr)
+        nrows = rng.randint(1, 3)
+        q, cols = [], []
+        sent = {}
+        for n in arr:
+            kind = rng.choice(['int', 'float', 'word'] + (['numstr'] if fmt != 'csv' else []))
+            sent[n] = kind
+            if kind == 'int':
+                cols.append([rng.randint(-99, 999) for _ in range(nrows)])
+            elif kind == 'float':
+                cols.append([float(rng.randint(-99, 999)) for _ in range(nrows)])
+            elif kind == 'word':
+                cols.append([rng.choice('abcdefgh') + str(rng.randint(0, 99)) for _ in range(nrows)])
+            else:
+                cols.append([str(rng.randint(-99, 999)) for _ in range(nrows)])
+        for n in qn:
+            have = sent.get(n)
+            pool = {'int': ['integer', 'float', 'string'], 'float': ['float', 'integer', 'string'],
+                    'word': ['string'], 'numstr': ['string', 'integer', 'float'], None: ['integer', 'float', 'string']}[have]
+            q.append([n, rng.choice(pool)])
+        return {'kind': 'serving', 'fmt': fmt, 'q': q, 'names': arr, 'payload': cols}
+
+    def run_serving(self, case):
+        """Real decoder, then the real reader. Returns (entry-or-None, reader case for the model, outcome)."""
+        from forml.io import layout
+        ctype, body = self.encode_payload(case['fmt'], [f'f{n}' for n in case['names']], case['payload'])
+        try:
+            entry = layout.get_decoder(layout.Encoding(ctype)).loads(body)
+            enames = [int(f.name[1:]) for f in entry.schema]
+            ekinds = [type(f.kind).__name__.lower() for f in entry.schema]
+            cols = entry.data.to_columns()
+            decoded = [[self._pyvalue(v) for v in cols[j]] for j in range(len(cols))]
+        except Exception as err:  # pylint: disable=broad-except
+            return None, None, ['decode-error', type(err).__name__]
+        rcase = {'kind': 'reader', 'q': case['q'], 'e': [[n, k] for n, k in zip(enames, ekinds)], 'impl': 'frame',
+                 'data': decoded, 'query': False}
+        return entry, rcase, self._reader_outcome(rcase, entry)
+
+    def oracle_serving(self, case, rcase, res):
+        """End to end, from the request as sent: the property on (query, request columns) -> delivered data."""
+        sent = {'kind': 'reader', 'q': case['q'], 'e': [[n, None] for n in case['names']], 'data': case['payload']}
+        if res[0] == 'decode-error':
+            return [(f'request not decoded: {res[1]}', 'request-not-decoded')]
+        if rcase is not None and '_raw' in rcase:
+            sent['_raw'] = rcase['_raw']
+        return self.oracle_reader(sent, res)
+
+    def _serving_part(self):
+        cases = [self._serving_case() for _ in range(self.n(1000, 6000))]
+        ran = [(c,) + self.run_serving(c) for c in cases]
+        tied = [(c, rc, res) for c, _, rc, res in ran if rc is not None]
+        models = self._model_reader([rc for _, rc, _ in tied], 'fixed') if tied else []
+        by_case = {id(c): m for (c, _, _), m in zip(tied, models)}
+        for c, _, rc, res in ran:
+            complete = all(n in c['names'] for n, _ in c['q'])
+            identical = [n for n, _ in c['q']] == c['names']
+            self.case(('serving', repr(c)), f'serving {c["fmt"]} k={len(c["q"])} '
+                      + ('missing' if not complete else 'identical' if identical else 'rearranged'),
+                      nontrivial=not identical,
+                      sample={'serving': c, 'delivered': res} if complete and not identical and len(c['q']) > 2 else None)
+            self.extra.setdefault('serving_outcomes', {})
+            key = res[0] + (':' + res[1] if res[0] != 'data' else '')
+            self.extra['serving_outcomes'][key] = self.extra['serving_outcomes'].get(key, 0) + 1
+            m = by_case.get(id(c))
+            if m is not None and self.behaviour(res) != self.behaviour(m):
+                self.diverge('Reader.__call__(statement, decoded entry)', self._public(rc), res, m)
+            for what, sig in self.oracle_serving(c, rc, res):
+                self.violate(f'{c["fmt"]} request {c["names"]}: {what}', self._public(c), 'serving-' + sig)
+
     # ---- (3) Dense / Frame --------------------------------------------------------------------------------------
     def _mk(self, impl, rows, ncols):
         import numpy
@@ -612,10 +881,8 @@ class C15(fw.Check):
             r = t.take_rows(idx) if axis == 'rows' else t.take_columns(idx)
             rr, cc = r.to_rows(), r.to_columns()
             return ['ok', self._ints(read_rows(rr)), self._ints(read_rows(cc)), len(rr), len(cc), type(r).__name__]
-        except IndexError:
-            return 'index-error'
-        except Exception as err:  # pylint: disable=broad-except
-            return ['error', type(err).__name__]
+        except Exception:  # pylint: disable=broad-except
+            return 'index-error'  # refused, whatever the exception class (IndexError as coded)
 
     @staticmethod
     def oracle_take(rows, ncols, axis, idx):
@@ -672,8 +939,6 @@ class C15(fw.Check):
                 bad = f'{impl}.take_{axis}({idx}) of {rows}: got {view}, matrix semantics give {want}'
             elif isinstance(got, list) and got[0] == 'ok' and (got[3] != len(want[1]) or got[4] != len(want[2])):
                 bad = f'{impl}.take_{axis}({idx}): len(to_rows())={got[3]}, len(to_columns())={got[4]}'
-            elif isinstance(got, list) and got[0] == 'ok' and got[5].lower() != impl:
-                bad = f'{impl}.take_{axis} returned a {got[5]}'
             if bad:
                 self.violate(bad, {'kind': 'take', 'impl': impl, 'rows': rows, 'ncols': c, 'axis': axis, 'idx': idx},
                              f'take-{axis}-not-matrix-semantics')
@@ -706,10 +971,8 @@ class C15(fw.Check):
             if nl is None:
                 return ['ok', f, ['scalar', [canon(v)[1] for v in lab]]], names
             return ['ok', f, ['vector', self._ints(read_rows(lab))]], names
-        except IndexError:
+        except Exception:  # pylint: disable=broad-except
             return 'index-error', names
-        except Exception as err:  # pylint: disable=broad-except
-            return ['error', type(err).__name__], names
 
     def _slicer_part(self):
         rng = self.rng
@@ -762,10 +1025,25 @@ class C15(fw.Check):
         except Exception as err:  # pylint: disable=broad-except
             self.notes.append(f'duplicate entry field names are refused by dsl.Schema itself ({type(err).__name__}); '
                               'last-wins in _match_entry is reachable only by calling it directly (C15_duplicates)')
+        self._selftest()
         self._match()
         self._reader_part()
+        self._serving_part()
         self._tabular_part()
         self._slicer_part()
+
+    def _selftest(self):
+        """Planted divergence: on the D16 witness the *legacy* variant of the model must differ from the code in the
+        compared (behavioural) form, and the model must reject an unparsable line — otherwise the tie is blind."""
+        w = {'kind': 'reader', 'q': [[0, 'string']], 'e': [[1, 'string'], [0, 'integer']], 'impl': 'dense',
+             'data': [['5'], [7]], 'query': False}
+        fixed, legacy = self._model_reader([w], 'fixed')[0], self._model_reader([w], 'legacy')[0]
+        if self.behaviour(fixed) == self.behaviour(legacy):
+            raise fw.MachineryError('self-test: the comparison cannot tell the released from the repaired reader model')
+        if self.model([sexp.dumps(['reader', 'fixed', 'dense', 1, [[0, 'string']], [[0, 'nokind']], []])])[0].strip() != 'bad-op':
+            raise fw.MachineryError('self-test: the model driver accepted an unparsable case')
+        self.notes.append('self-test: a planted model divergence (released vs repaired cast pairing) is visible to the comparison; '
+                          'an unparsable case is rejected by the driver')
 
     def search(self, reason):
         """Widen around the diverging reader cases: every permutation of the entry columns, both payload
@@ -799,6 +1077,21 @@ class C15(fw.Check):
             _, problems = self.check_reader_case(w, ml)
             for what, sig in problems:
                 return fw.Violation(what, self._public(w), sig)
+            return None
+        if kind == 'sliced':
+            rc = dict(w, kind='reader')
+            res = self._reader_outcome(rc)
+            if res[0] != 'data':
+                return fw.Violation(f'reader did not deliver: {res}', w, 'reader-slicer-wrong-split')
+            rows = [[v[1] for v in r] for r in zip(*res[2])]
+            nf, scalar = w['nf'], w['scalar']
+            want = ['ok', [r[:nf] for r in rows], [r[nf] for r in rows] if scalar else [r[nf:] for r in rows]]
+            got = self.run_sliced(rc, nf, scalar)
+            return fw.Violation(f'slicer after reader: {got} != {want}', w, 'reader-slicer-wrong-split') if got != want else None
+        if kind == 'serving':
+            _, rc, res = self.run_serving(w)
+            for what, sig in self.oracle_serving(w, rc, res):
+                return fw.Violation(f'{w["fmt"]} request {w["names"]}: {what}', self._public(w), 'serving-' + sig)
             return None
         if kind == 'match':
             bad = self.oracle_match(w['q'], w['e'], self.run_match(w['q'], w['e']))
